@@ -5,7 +5,7 @@ import e2e_common as E
 
 
 def run(ctx):
-    traces = ctx.e2e(E.plan(ctx, [("attack", 14), ("lossy", 6), ("clean", 2)]))
+    traces = ctx.e2e(E.plan(ctx, [("attack", 12), ("replay", 4), ("lossy", 5), ("clean", 2)]))
     # every packet that reaches frame processing is a genuine, not yet processed packet of the peer with exactly
     # the cleartext the peer produced; ACKs name only such packets; no forged datagram closes the connection
     ctx.validate_families(traces, "Trace_PacketFlow", E.FLOW_KINDS)
